@@ -28,13 +28,14 @@ func init() {
 	mon.Register(&mon.Property{
 		ID:    "C02",
 		Level: "exploration",
-		Rule: "requirement structures (global or per-operation; 1..4 alternatives of 1..3 of the schemes S1..S5 with scopes; the empty alternative at any position; some schemes without a registered authenticator; authorizer absent/accepting/denying plain/denying with own status) " +
+		Rule: "requirement structures (global or per-operation; 1..4 alternatives of 1..3 of the schemes S1..S5 with scopes; the empty alternative at any position; some schemes without a registered authenticator; authorizer absent/accepting/denying plain/denying with own status; a quarter of the APIs hold 2..3 operations (or the API-wide list and operations) whose requirements are different groupings of ONE list of 2..4 (scheme, scopes) entries, e.g. A AND B next to A OR B; methods POST/PUT/PATCH/DELETE/GET, static paths and paths with a parameter) " +
 			"x per-scheme outcome vectors read by scripted authenticators from request headers (n=not applicable, a=accept with principal, g:<scopes>=accept only requirements whose scopes are all granted else reject 403, z=accept with nil principal, r=reject with 401/403/418; all 4^n vectors for n<=4 schemes, sampled beyond) " +
-			"x invalid/valid query parameter x body behind a counting consumer; every structure is rebuilt several times (in-alternative order is a map order fixed at build) and driven through the full handler and through Context.Authorize. " +
+			"x invalid/valid query parameter x body behind a counting consumer x (a quarter of the requests) something else wrong: unconsumed or unparsable Content-Type, unservable Accept, undecodable body; every structure is rebuilt several times (in-alternative order and the order in which the router visits the operations are map orders fixed at build) and driven through the full handler and through Context.Authorize, which on success is asked again on the returned request and once more after ResetAuth. " +
 			"Oracle over the observed authenticator call log. non-trivial = (structure hash, operation, outcome vector, observed call order) with >= 2 schemes in the operation's requirements or an empty alternative; distinct by that tuple",
 		Assumptions: []string{
 			"a scheme that would reject but was never consulted (an earlier scheme of the same alternative was not applicable, or an earlier alternative admitted) has rejected nothing",
-			"which of several satisfied alternatives admits, and which of several rejecting schemes' errors is reported, is not stated and not judged",
+			"which of several satisfied alternatives naming schemes admits, and which of several rejecting schemes' errors is reported, is not stated and not judged; when such an alternative is satisfied the principal is non-nil (the anonymous alternative next to it does not hide the identified caller)",
+			"what an admitted request with an unconsumed/unparsable Content-Type, an unservable Accept or an undecodable body is answered (415, 406, 400, 422) is judged by C06/C07/C03, not here; a refusal never carries one of these codes",
 			"the scripted authorizer decides independently of the principal; the principal it is shown is judged",
 		},
 		MinNontrivial: 300,
@@ -49,6 +50,10 @@ type Request struct {
 	Outcomes map[string]string `json:"outcomes"` // scheme -> n | a | z | r401 | r403 | r418
 	BadQuery bool              `json:"badQuery,omitempty"`
 	Body     bool              `json:"body,omitempty"`
+	// Variant makes something else wrong with the request (absent = nothing): ct-text (a media type the
+	// operation does not consume), ct-malformed (unparsable Content-Type), accept-text (an Accept the
+	// operation cannot serve), bad-json (a body the consumer cannot decode). ct-* and bad-json send a body.
+	Variant string `json:"variant,omitempty"`
 }
 
 // Case is a requirement structure, its registrations and the requests sent to it.
@@ -168,23 +173,43 @@ func build(c *Case) (*sut, error) {
 
 func (s *sut) request(rq *Request) *http.Request {
 	op := s.c.Desc.Ops[rq.Op]
-	target := op.Template + "?q=7"
+	path := strings.ReplaceAll(op.Template, "{id}", "v1")
+	target := path + "?q=7"
 	if rq.BadQuery {
-		target = op.Template + "?q=notanumber"
+		target = path + "?q=notanumber"
 	}
 	var body io.Reader
-	if rq.Body {
-		body = bytes.NewBufferString(`{"k":1}`)
+	if rq.hasBody() {
+		if rq.Variant == "bad-json" {
+			body = bytes.NewBufferString(`{`)
+		} else {
+			body = bytes.NewBufferString(`{"k":1}`)
+		}
 	}
 	r := httptest.NewRequest(op.Method, target, body)
-	if rq.Body {
-		r.Header.Set("Content-Type", "application/json")
+	if rq.hasBody() {
+		switch rq.Variant {
+		case "ct-text":
+			r.Header.Set("Content-Type", "text/plain")
+		case "ct-malformed":
+			r.Header.Set("Content-Type", "application/json; charset")
+		default:
+			r.Header.Set("Content-Type", "application/json")
+		}
 	}
-	r.Header.Set("Accept", "application/json")
+	if rq.Variant == "accept-text" {
+		r.Header.Set("Accept", "text/plain")
+	} else {
+		r.Header.Set("Accept", "application/json")
+	}
 	for k, v := range rq.Outcomes {
 		r.Header.Set("X-Out-"+k, v)
 	}
 	return r
+}
+
+func (rq *Request) hasBody() bool {
+	return rq.Body || rq.Variant == "ct-text" || rq.Variant == "ct-malformed" || rq.Variant == "bad-json"
 }
 
 // effective requirement alternatives of an operation
@@ -291,6 +316,9 @@ func runCase(m *mon.M, c *Case) {
 			alts := alternatives(&c.Desc, op)
 			ref := judgeRef(c, alts, rq.Outcomes)
 			feat := features(c, alts, rq.Outcomes)
+			if rq.Variant != "" {
+				feat += "+" + rq.Variant
+			}
 
 			// ---- entry point 1: the full handler ----
 			s.calls, s.authzCalls, s.handlerRan, s.consumed = nil, nil, 0, 0
@@ -330,7 +358,38 @@ func runCase(m *mon.M, c *Case) {
 				m.Violate("authorize-panic/"+feat, fmt.Sprintf("panic: %v\n%s", pv, st), one)
 				continue
 			}
-			judgeAuthorize(m, c, s, rq, alts, ref, usr, rq2, aerr, feat, one)
+			if !judgeAuthorize(m, "authorize", c, s, rq, alts, ref, usr, rq2, aerr, feat, one) || aerr != nil || rq2 == nil {
+				continue
+			}
+			// ---- entry point 2, continued: later askers on the request value Authorize returned ----
+			// (a) asked again, (b) asked after ResetAuth. The structure, the credentials and the scripted
+			// outcomes are the same, so each answer is held to the same statement as the first one, over
+			// the authenticators it consulted itself.
+			route := middleware.MatchedRouteFrom(rq2)
+			cur := rq2
+			for _, kind := range []string{"authorize-again", "authorize-after-reset"} {
+				s.calls, s.authzCalls, s.handlerRan, s.consumed = nil, nil, 0, 0
+				var (
+					usr3  interface{}
+					rq3   *http.Request
+					aerr3 error
+				)
+				pv, st = mon.Catch(func() {
+					if kind == "authorize-after-reset" {
+						cur = s.ctx.ResetAuth(cur)
+					}
+					usr3, rq3, aerr3 = s.ctx.Authorize(cur, route)
+				})
+				m.Eval(1)
+				if pv != nil {
+					m.Violate(kind+"-panic/"+feat, fmt.Sprintf("panic: %v\n%s", pv, st), one)
+					break
+				}
+				if !judgeAuthorize(m, kind, c, s, rq, alts, ref, usr3, rq3, aerr3, feat, one) || aerr3 != nil || rq3 == nil {
+					break
+				}
+				cur = rq3
+			}
 		}
 	}
 	if m.WantSample() {
@@ -409,7 +468,9 @@ func judgeHandler(m *mon.M, c *Case, s *sut, rq *Request, alts []gen.SecReq, ref
 	}
 	if len(alts) == 0 {
 		// no security declared: plain pipeline
-		if rq.BadQuery {
+		if rq.Variant != "" {
+			// what the pipeline answers to the other defect of the request is not this property's business
+		} else if rq.BadQuery {
 			if status != 422 || s.handlerRan != 0 {
 				m.Violate("unsecured-op-bad-query/"+feat, desc(), one)
 			}
@@ -426,7 +487,9 @@ func judgeHandler(m *mon.M, c *Case, s *sut, rq *Request, alts []gen.SecReq, ref
 	admittedBySatisfied := len(ref.satisfied) > 0
 	admittedAnon := ref.hasAnon && len(rejecters) == 0 && !admittedBySatisfied
 	authzDenies := strings.HasPrefix(c.Authorizer, "deny")
-	passedAuth := s.handlerRan > 0 || status == 422 || s.consumed > 0
+	// the request got past authentication when something ran, or when the answer is one of the stages behind
+	// it (content-type gate 415, Accept negotiation 406, binding 400/422); no scripted refusal uses these codes
+	passedAuth := s.handlerRan > 0 || status == 422 || s.consumed > 0 || status == 415 || status == 406 || status == 400
 
 	// every consulted scheme must be shown the scopes its requirement lists
 	for _, cl := range s.calls {
@@ -459,10 +522,24 @@ func judgeHandler(m *mon.M, c *Case, s *sut, rq *Request, alts []gen.SecReq, ref
 				m.Violate("authorizer-not-consulted-once/"+feat, desc(), one)
 				return
 			}
+			if s.authzCalls[0] == nil && admittedBySatisfied {
+				m.Violate("authorizer-shown-nil-principal-although-alternative-satisfied/"+feat, desc(), one)
+				return
+			}
 			if !principalWarranted(s.authzCalls[0], ref, rq.Outcomes) {
 				m.Violate("authorizer-shown-unwarranted-principal/"+feat, desc(), one)
 				return
 			}
+		}
+		if rq.Variant != "" {
+			// admitted, and something else is wrong with the request: which answer that gets (415, 406, 422 ...)
+			// belongs to other properties; here the handler must not have run more than once
+			if s.handlerRan > 1 {
+				m.Violate("admitted-but-handler-count/"+feat, desc(), one)
+				return
+			}
+			m.Class(fmt.Sprintf("admitted-%s-%d", rq.Variant, status))
+			return
 		}
 		if rq.BadQuery {
 			if status != 422 || s.handlerRan != 0 {
@@ -502,6 +579,10 @@ func judgeHandler(m *mon.M, c *Case, s *sut, rq *Request, alts []gen.SecReq, ref
 		}
 		if status != want || !strings.Contains(body, "authorizer-says-no") {
 			m.Violate("authorizer-denial-wrong-answer/"+feat, desc(), one)
+			return
+		}
+		if len(s.authzCalls) == 1 && s.authzCalls[0] == nil && admittedBySatisfied {
+			m.Violate("authorizer-shown-nil-principal-although-alternative-satisfied/"+feat, desc(), one)
 			return
 		}
 		if len(s.authzCalls) != 1 || !principalWarranted(s.authzCalls[0], ref, rq.Outcomes) {
@@ -550,7 +631,10 @@ func principalWarranted(p interface{}, ref verdict, out map[string]string) bool 
 	return false
 }
 
-func judgeAuthorize(m *mon.M, c *Case, s *sut, rq *Request, alts []gen.SecReq, ref verdict, usr interface{}, rq2 *http.Request, aerr error, feat string, one *Case) {
+// judgeAuthorize judges one answer of Context.Authorize; kind names the asker ("authorize": first call on a
+// fresh request; "authorize-again", "authorize-after-reset": later calls on the returned request value) and
+// prefixes the signature. It reports whether the answer was accepted.
+func judgeAuthorize(m *mon.M, kind string, c *Case, s *sut, rq *Request, alts []gen.SecReq, ref verdict, usr interface{}, rq2 *http.Request, aerr error, feat string, one *Case) bool {
 	desc := func() string {
 		var scopes []string
 		var ctxP interface{}
@@ -558,38 +642,45 @@ func judgeAuthorize(m *mon.M, c *Case, s *sut, rq *Request, alts []gen.SecReq, r
 			scopes = middleware.SecurityScopesFrom(rq2)
 			ctxP = middleware.SecurityPrincipalFrom(rq2)
 		}
-		return fmt.Sprintf("Authorize: op=%s alternatives=%v registered=%v authorizer=%s outcomes=%v calls=%s -> principal=%v ctxPrincipal=%v scopes=%v err=%v",
+		return fmt.Sprintf(kind+": op=%s alternatives=%v registered=%v authorizer=%s outcomes=%v calls=%s -> principal=%v ctxPrincipal=%v scopes=%v err=%v",
 			c.Desc.Ops[rq.Op].ID, alts, c.Registered, c.Authorizer, rq.Outcomes, callOrder(s.calls), usr, ctxP, scopes, aerr)
 	}
 	if len(alts) == 0 {
 		if aerr != nil || usr != nil {
-			m.Violate("authorize-unsecured-op/"+feat, desc(), one)
+			m.Violate(kind+"-unsecured-op/"+feat, desc(), one)
+			return false
 		}
-		return
+		return true
 	}
 	rejecters := consultedRejecters(s, rq.Outcomes)
 	authzDenies := strings.HasPrefix(c.Authorizer, "deny")
 	warranted := len(ref.satisfied) > 0 || (ref.hasAnon && len(rejecters) == 0)
 	if aerr == nil {
 		if !warranted {
-			m.Violate("authorize-admitted-without-satisfied-alternative/"+feat, desc(), one)
-			return
+			m.Violate(kind+"-admitted-without-satisfied-alternative/"+feat, desc(), one)
+			return false
 		}
 		if authzDenies {
-			m.Violate("authorize-admitted-despite-authorizer-denial/"+feat, desc(), one)
-			return
+			m.Violate(kind+"-admitted-despite-authorizer-denial/"+feat, desc(), one)
+			return false
+		}
+		if usr == nil && len(ref.satisfied) > 0 {
+			// an alternative naming schemes is fully satisfied: the caller is identified, and the principal
+			// (and scopes) come from a satisfied alternative, not from the anonymous one next to it
+			m.Violate(kind+"-nil-principal-although-alternative-satisfied/"+feat, desc(), one)
+			return false
 		}
 		if !principalWarranted(usr, ref, rq.Outcomes) {
-			m.Violate("authorize-unwarranted-principal/"+feat, desc(), one)
-			return
+			m.Violate(kind+"-unwarranted-principal/"+feat, desc(), one)
+			return false
 		}
 		if rq2 == nil {
-			m.Violate("authorize-nil-request-on-success/"+feat, desc(), one)
-			return
+			m.Violate(kind+"-nil-request-on-success/"+feat, desc(), one)
+			return false
 		}
 		if cp := middleware.SecurityPrincipalFrom(rq2); cp != usr {
-			m.Violate("authorize-context-principal-differs/"+feat, desc(), one)
-			return
+			m.Violate(kind+"-context-principal-differs/"+feat, desc(), one)
+			return false
 		}
 		// scopes: the union of the scopes of a satisfied alternative containing the principal's scheme
 		got := strings.Join(sortedCopy(middleware.SecurityScopesFrom(rq2)), ",")
@@ -606,15 +697,15 @@ func judgeAuthorize(m *mon.M, c *Case, s *sut, rq *Request, alts []gen.SecReq, r
 			}
 		}
 		if !ok {
-			m.Violate("authorize-scopes-not-of-admitting-alternative/"+feat, desc(), one)
-			return
+			m.Violate(kind+"-scopes-not-of-admitting-alternative/"+feat, desc(), one)
+			return false
 		}
-		m.Class("authorize-admitted")
-		return
+		m.Class(kind + "-admitted")
+		return true
 	}
 	if warranted && !authzDenies {
-		m.Violate("authorize-refused-although-warranted/"+feat, desc(), one)
-		return
+		m.Violate(kind+"-refused-although-warranted/"+feat, desc(), one)
+		return false
 	}
 	code := 0
 	var oe oerrors.Error
@@ -628,8 +719,8 @@ func judgeAuthorize(m *mon.M, c *Case, s *sut, rq *Request, alts []gen.SecReq, r
 			want = 409
 		}
 		if code != want || !strings.Contains(aerr.Error(), "authorizer-says-no") {
-			m.Violate("authorize-authorizer-denial-wrong-error/"+feat, desc(), one)
-			return
+			m.Violate(kind+"-authorizer-denial-wrong-error/"+feat, desc(), one)
+			return false
 		}
 	case len(rejecters) > 0:
 		ok := false
@@ -639,16 +730,17 @@ func judgeAuthorize(m *mon.M, c *Case, s *sut, rq *Request, alts []gen.SecReq, r
 			}
 		}
 		if !ok {
-			m.Violate("authorize-error-not-a-rejecters/"+feat, desc(), one)
-			return
+			m.Violate(kind+"-error-not-a-rejecters/"+feat, desc(), one)
+			return false
 		}
 	default:
 		if code != 401 {
-			m.Violate("authorize-error-not-401/"+feat, desc(), one)
-			return
+			m.Violate(kind+"-error-not-401/"+feat, desc(), one)
+			return false
 		}
 	}
-	m.Class("authorize-refused")
+	m.Class(kind + "-refused")
+	return true
 }
 
 // ---------- generation ----------
@@ -691,6 +783,109 @@ func genAlts(r *rand.Rand) []gen.SecReq {
 	return alts
 }
 
+// partition groups the same (scheme, scopes) entries into alternatives: every entry lands in exactly one
+// alternative, so two partitions of one entry list name the same schemes with the same scopes and differ
+// only in the AND/OR structure. anonAt >= 0 inserts the empty alternative at that position.
+func partition(r *rand.Rand, names []string, scopes map[string][]string, groups int, anonAt int) []gen.SecReq {
+	order := append([]string(nil), names...)
+	r.Shuffle(len(order), func(i, j int) { order[i], order[j] = order[j], order[i] })
+	alts := make([]gen.SecReq, groups)
+	for i := range alts {
+		alts[i] = gen.SecReq{}
+	}
+	for i, n := range order {
+		g := i
+		if i >= groups {
+			g = r.Intn(groups)
+		}
+		alts[g][n] = append([]string{}, scopes[n]...)
+	}
+	if anonAt >= 0 {
+		if anonAt > len(alts) {
+			anonAt = len(alts)
+		}
+		alts = append(alts[:anonAt], append([]gen.SecReq{{}}, alts[anonAt:]...)...)
+	}
+	return alts
+}
+
+// structureKey renders alternatives up to the order of the alternatives and of the schemes inside them.
+func structureKey(alts []gen.SecReq) string {
+	var l []string
+	for _, a := range alts {
+		var e []string
+		for n, sc := range a {
+			e = append(e, n+"["+strings.Join(sortedCopy(sc), ",")+"]")
+		}
+		sort.Strings(e)
+		l = append(l, "{"+strings.Join(e, "&")+"}")
+	}
+	sort.Strings(l)
+	return strings.Join(l, "|")
+}
+
+// regrouped fills the requirement structures of all operations (and possibly the API-wide one) with
+// different groupings of one entry list: A AND B next to A OR B in ONE API.
+func regrouped(r *rand.Rand, d *gen.Desc) {
+	n := 2 + r.Intn(3)
+	if n == 4 && r.Intn(2) == 0 {
+		n = 2 + r.Intn(2)
+	}
+	names := append([]string(nil), schemes...)
+	r.Shuffle(len(names), func(i, j int) { names[i], names[j] = names[j], names[i] })
+	names = names[:n]
+	sort.Strings(names)
+	scopes := map[string][]string{}
+	for _, nm := range names {
+		sc := []string{}
+		if r.Intn(2) == 0 {
+			for _, x := range scopePool {
+				if r.Intn(3) == 0 {
+					sc = append(sc, x)
+				}
+			}
+		}
+		scopes[nm] = sc
+	}
+	anon := -1
+	if r.Intn(5) == 0 {
+		anon = r.Intn(n + 1)
+	}
+	seen := map[string]bool{}
+	draw := func(k int) []gen.SecReq {
+		var alts []gen.SecReq
+		for try := 0; try < 20; try++ {
+			groups := 1 + r.Intn(n)
+			switch {
+			case k == 0 && try == 0 && r.Intn(2) == 0:
+				groups = 1 // the AND of everything
+			case k == 1 && try == 0 && r.Intn(2) == 0:
+				groups = n // the OR of everything
+			}
+			alts = partition(r, names, scopes, groups, anon)
+			if !seen[structureKey(alts)] {
+				break
+			}
+		}
+		seen[structureKey(alts)] = true
+		return alts
+	}
+	global := r.Intn(3) == 0
+	if global {
+		d.Security = draw(0)
+	} else {
+		d.Security = nil
+	}
+	for i := range d.Ops {
+		d.Ops[i].HasSecurity = false
+		if global && i == 0 {
+			d.Ops[i].Security = nil // inherits the API-wide grouping
+			continue
+		}
+		d.Ops[i].Security = draw(i + 1)
+	}
+}
+
 // grant scripts a credential that carries only some of the scopes.
 func grant(r *rand.Rand) string {
 	var g []string
@@ -703,6 +898,7 @@ func grant(r *rand.Rand) string {
 }
 
 var outcomes = []string{"n", "a", "z", "r"}
+var variants = []string{"ct-text", "ct-malformed", "accept-text", "bad-json"}
 var rejectKinds = []string{"r401", "r403", "r418", "rp403"}
 
 func genCase(r *rand.Rand, builds int, maxReq int) *Case {
@@ -715,11 +911,22 @@ func genCase(r *rand.Rand, builds int, maxReq int) *Case {
 		d.Security = genAlts(r)
 	}
 	nops := 1 + r.Intn(3)
+	regroup := r.Intn(4) == 0
+	if regroup && nops == 1 {
+		nops = 2 + r.Intn(2)
+	}
 	qparam := gen.Param{Name: "q", In: "query", Type: "integer", Format: "int32", Required: true}
 	for i := 0; i < nops; i++ {
 		op := gen.Op{ID: fmt.Sprintf("op%d", i), Method: "POST", Template: fmt.Sprintf("/o%d", i),
 			Params:   []gen.Param{qparam, {Name: "body", In: "body"}},
 			Consumes: []string{"application/json"}, Produces: []string{"application/json"}}
+		if r.Intn(3) == 0 { // security does not depend on the method or on the shape of the path
+			op.Method = []string{"PUT", "PATCH", "DELETE", "GET"}[r.Intn(4)]
+		}
+		if r.Intn(3) == 0 {
+			op.Template += "/{id}"
+			op.Params = append(op.Params, gen.Param{Name: "id", In: "path", Type: "string", Required: true})
+		}
 		switch r.Intn(6) {
 		case 0: // inherit global
 		case 1:
@@ -730,6 +937,9 @@ func genCase(r *rand.Rand, builds int, maxReq int) *Case {
 			op.Security = genAlts(r)
 		}
 		d.Ops = append(d.Ops, op)
+	}
+	if regroup {
+		regrouped(r, &d)
 	}
 	c := &Case{Desc: d, Builds: builds}
 	for _, s := range schemes {
@@ -794,7 +1004,11 @@ func genCase(r *rand.Rand, builds int, maxReq int) *Case {
 			vecs = vecs[:maxReq]
 		}
 		for _, o := range vecs {
-			c.Requests = append(c.Requests, Request{Op: oi, Outcomes: o, BadQuery: r.Intn(2) == 0, Body: r.Intn(2) == 0})
+			rq := Request{Op: oi, Outcomes: o, BadQuery: r.Intn(2) == 0, Body: r.Intn(2) == 0}
+			if r.Intn(4) == 0 { // something else is wrong with the request
+				rq.Variant = variants[r.Intn(len(variants))]
+			}
+			c.Requests = append(c.Requests, rq)
 		}
 	}
 	return c
